@@ -87,6 +87,20 @@ CHECKS: dict[str, tuple[str, str, str, str, str]] = {
         "and the bytecode library's block splitting.",
         "5/C06",
     ),
+    "C09": (
+        "exploration",
+        "exhaustive program enumeration, independent dynamic-dependence interpreter, sys.settrace ground truth",
+        "Every def-before-use-correct program of a small fragment (locals, one global, object and class attribute, "
+        "list/dict subscripts, if/else, one call between two functions; bodies <= 3 menu statements + return quick: "
+        "1,422 programs / 14k slices; <= 4 thorough: 18,497 programs / 188k slices) runs for inputs {0,1,2} through "
+        "the real import hook, executor and statement / assertion slicing observers. For each slice: every checked "
+        "line was executed, every slice instruction was executed, and every line in the dynamic dependence closure "
+        "of the sliced value (computed by mc/depinterp.py) is in the slice.",
+        "Soundness only; precision is never demanded. depinterp.py (no pynguin imports) is validated on every "
+        "execution against plain CPython for values, exception types and executed lines. No loops, exceptions, "
+        "closures, generators or methods in the fragment.",
+        "5/C09",
+    ),
     "C10": (
         "exploration",
         "bounded-exhaustive abstract-trace enumeration through real chromosomes and fitness functions",
@@ -303,7 +317,7 @@ CHECKS: dict[str, tuple[str, str, str, str, str]] = {
     "C30": (
         "model_checking",
         "explicit-state sequences through one real executor + schedule exploration of abandoned threads",
-        "Leg 1: every sequence of <= 2 (quick) / <= 3 (thorough) test cases from a 15-call alphabet (print, raise, "
+        "Leg 1: every sequence of <= 2 (quick) / <= 3 (thorough) test cases from a 17-call alphabet (print, raise, log, "
         "SystemExit, close/replace stdout, os.close(1), disable logging / remove handlers, reseed / draw / create "
         "random generators, mutate module or class state, pure calls) runs through one real TestCaseExecutor; after "
         "every execution the process snapshot (streams, fds 0-2, logging level and root handlers, pynguin's RNG "
